@@ -38,7 +38,10 @@ def vmx_cfg(seed: int, k: int) -> dict:
         "rounds": rng.choice([1, 2, 10, 1000, 5000]) if k % 5 == 0 else rng.choice([1, 3, 17]),
         "salt_len": rng.choice([1, 8, 16, 16, 32, 33]),
         "npairs": rng.choice([1, 1, 2, 3, 4]), "which": 0, "upper": rng.random() < 0.3,
-        "passphrase": rng.choice(["password", "pässwörd", "p", "correct horse battery staple", "P@ss:w/ord,(1)", "x" * 70]),
+        "passphrase": rng.choice(["password", "pässwörd", "p", "correct horse battery staple", "P@ss:w/ord,(1)", "x" * 70,
+                                  "ends with newline\n", "crlf\r\n", " padded ", "tab\tinside", "a+b%2Bc", "e\u0301"]),
+        # how values inside the crypto dictionaries are quoted: fully, or only where the syntax needs it (as the products do)
+        "dict_style": rng.choice(["full", "vmware", "vmware"]),
         "seed": rng.getrandbits(40), "text_len": 40 + (k * 7 + rng.randrange(16)) % 64,
     }
     cfg["which"] = rng.randrange(cfg["npairs"])
@@ -62,7 +65,7 @@ def build_vmx(cfg: dict):
         # every pair names its own MAC; encryption.data is sealed with the MAC of the pair that holds its key
         text, blob = W.keysafe_pair(pw, cfg["kdf"] if right else rng.choice(sorted(W.KDFS)), cfg["cipher"] if right else rng.choice(sorted(W.CIPHERS)),
                                     cfg["rounds"] if right else 2, rb(cfg["salt_len"]), cfg["mac"] if right else rng.choice(sorted(W.MACS)), dk,
-                                    cfg["data_cipher"] if right else "AES-256", rb(8), rb(16), cfg["upper"])
+                                    cfg["data_cipher"] if right else "AES-256", rb(8), rb(16), cfg["upper"], cfg.get("dict_style", "full"))
         pairs.append(text)
         blobs.append(blob)
     inner = []
@@ -114,13 +117,24 @@ def _c15_plan(tier, verif_seed):
         for pos in range(len(data_blob)):
             for m in (masks if tier == "quick" else masks[:: max(1, len(masks) // 16)]):
                 plan.append((kk, ["data", pos, m]))
-        for variant in ("prefix", "case", "empty", "unicode", "suffix", "other_pair"):
+        for variant in ("prefix", "case", "empty", "unicode", "suffix", "other_pair", "newline", "crlf", "stripped", "lead_space", "normalised"):
             plan.append((kk, ["pass", variant]))
         for seqk in ("wrong_then_right", "right_then_wrong", "right_twice", "wrong_wrong_right"):
             plan.append((kk, ["seq", seqk]))
         plan.append((kk, ["trunc_data", 1]))
         plan.append((kk, ["trunc_wrap", 1]))
     return plan
+
+
+def _other_form(pw: str) -> str:
+    """The same text in another Unicode normalisation form (a different byte string, hence a different passphrase)."""
+    import unicodedata
+
+    for form in ("NFD", "NFC"):
+        o = unicodedata.normalize(form, pw)
+        if o != pw:
+            return o
+    return pw + "\u0301"
 
 
 def _run_c15(case, world, log, v):
@@ -148,7 +162,10 @@ def _run_c15(case, world, log, v):
         vmx_text = vmx_text.replace(pairs[cfg["which"]], newpair)
     elif t[0] == "pass":
         pw = {"prefix": pw[:-1], "case": pw.swapcase() if pw.swapcase() != pw else pw + "A", "empty": "", "unicode": pw + "é",
-              "suffix": pw + " ", "other_pair": "other-%d" % ((cfg["which"] + 1) % max(cfg["npairs"], 2)) if cfg["npairs"] > 1 else "other-9"}[t[1]]
+              "suffix": pw + " ", "newline": pw + "\n", "crlf": pw + "\r\n", "lead_space": " " + pw,
+              "stripped": pw.strip() if pw.strip() != pw else pw + "\t",
+              "normalised": _other_form(pw),
+              "other_pair": "other-%d" % ((cfg["which"] + 1) % max(cfg["npairs"], 2)) if cfg["npairs"] > 1 else "other-9"}[t[1]]
     world.faults_fired["tamper_" + t[0]] += 0 if t[0] == "none" else 1
     if t[0] == "seq":
         # several unlock attempts on one parsed object: results may depend only on the passphrase given to each call
@@ -209,9 +226,19 @@ def _run_c15(case, world, log, v):
 # ---------------------------------------------------------------------------------------------------------
 
 
+BIG_K = 100000
+_M = 1 << 20
+BIG_LENS = [4 * _M - 4096 - 1, 4 * _M - 4096, 4 * _M - 4095, 4 * _M - 100, 4 * _M - 1, 4 * _M, 4 * _M + 1, 8 * _M - 2000, 8 * _M - 4096, 1 * _M - 50,
+            2 * _M - 4095, 12 * _M - 1, 16 * _M - 3000, 3 * _M + 12345]
+
+
 def env_cfg(seed: int, k: int) -> dict:
     rng = rng_for(seed, "envcfg", k)
     plen = [0, 1, 15, 16, 17, 511, 512, 4095, 4096, 4097, 8192, 10000, 94293 % 20000][k % 13] if k < 39 else rng.randrange(0, 30000)
+    if k >= BIG_K:
+        # payloads around the sizes at which a reader is likely to cut its work into pieces (1, 2, 4, 8 MiB), so that the
+        # padding, the footer block or both fall on either side of such a boundary
+        plen = BIG_LENS[(k - BIG_K) % len(BIG_LENS)]
     extra = []
     names = ["vmware.extra", "x", "vmware.some.long.attribute.name", "u"]
     types = [0x1, 0x2, 0x3, 0x4, 0x5, 0x6, 0x7, 0x8, 0x9, 0xA, 0xB, 0xC]
@@ -236,7 +263,7 @@ def build_env(cfg: dict):
 
     key_id, data1, data2 = rb(16), rb(rng.choice([16, 16, 32, 7])), rb(rng.choice([16, 16, 24]))
     key = W.keystore_key(data1, data2)
-    payload = rb(cfg["plen"])
+    payload = rb(cfg["plen"]) if cfg["plen"] <= 65536 else (rb(65521) * (cfg["plen"] // 65521 + 1))[: cfg["plen"]]
     extra = []
     for name, typ, flag in cfg["extra"]:
         if typ == W.T_STRING:
@@ -271,6 +298,10 @@ def _c16_plan(tier, verif_seed):
             plan.append((k, ["cli"]))
         if k % 8 == 0:
             plan.append((k, ["keystore"]))
+    for j in range(8 if tier == "quick" else len(BIG_LENS) * 2):
+        plan.append((BIG_K + j, ["none"]))
+        if j % 2 == 0:
+            plan.append((BIG_K + j, ["cli"]))
     for j in range(ntamper):
         k = j * 7 + 1
         cfg = env_cfg(verif_seed, k)
